@@ -60,6 +60,9 @@ def _os_open(path, flags, mode=0o777, *, dir_fd=None):
             except FileExistsError:
                 sim.probe("lock_contended")
                 sim.log(t.name, "lock.busy %s" % sim.rel(p))
+                hook = getattr(sim, "on_lock", None)
+                if hook is not None:
+                    hook("busy", sim.rel(p))
                 raise
             hook = getattr(sim, "on_lock", None)
             if hook is not None:
